@@ -15,6 +15,10 @@ Same state and actions as `Model/Refcount.lean`, with the three deviations of th
   while it waits for the connection's next request; a server temporary made while serving client
   `c` is released only by `c`'s next request (or when `c` closes its connection) — a *client*
   action; the server has no internal step that drops it.
+* `cycle i` (F24): the argument proxy of a hosted method that raised stays referenced by the frame of
+  `Server._callmethod`, which the exception's traceback refers to and which refers to the wrapped
+  exception through its local `msg`: garbage only the cyclic collector can free (`lost` until then;
+  an idle server never collects).
 
 The witnesses below are kernel-checked (`decide`) runs of this model that end in a state the C13
 theorems exclude: an object without any reference that is still hosted.  The same action lists
@@ -34,6 +38,7 @@ inductive LAct where
   | exitLeaky (p : Nat)
   | hold (c i : Nat)
   | nextRequest (c : Nat)
+  | cycle (i : Nat)
 
 def lstep (t : LState) : LAct → Option LState
   | .base a => (step t.s a).map fun s' => { t with s := s' }
@@ -50,6 +55,10 @@ def lstep (t : LState) : LAct → Option LState
   | .hold c i =>
     if (Holder.temp, i) ∈ t.s.refs then
       some { t with s := { t.s with refs := t.s.refs.erase (.temp, i) }, held := (c, i) :: t.held }
+    else none
+  | .cycle i =>
+    if (Holder.temp, i) ∈ t.s.refs then
+      some { t with s := { t.s with refs := t.s.refs.erase (.temp, i) }, lost := (.temp, i) :: t.lost }
     else none
   | .nextRequest c =>
     some { t with s := { t.s with refs := (t.held.filter (·.1 == c)).map (fun x => (Holder.temp, x.2)) ++ t.s.refs }
@@ -96,6 +105,15 @@ theorem F21_reply_kept_until_next_request :
 theorem F21_released_by_unrelated_call :
     ∃ t, Core.run lstep linit (f21 ++ [.nextRequest 0, .base (.drop .temp 1)]) = some t ∧
       t.s.hosted 1 = false ∧ t.s.shm 1 = false ∧ t.held = [] :=
+  ⟨_, rfl, by decide⟩
+
+/-- **F24** `lst.remove(d)` with `d` a proxy of the hosted dict 1 raises `ValueError`; client 0 then
+    deletes `d`: no reference to the dict is left, it is still hosted. -/
+theorem F24_raising_call_keeps_argument :
+    ∃ t, Core.run lstep linit (createBy 0 .cont 0 ++ createBy 0 .cont 1 ++
+            [.base (.call 0 0), .base (.pickle (.client 0) 1), .base (.unpickle .temp 1), .base (.drop .rebuild 1),
+             .cycle 1, .base (.drop (.client 0) 1)]) = some t ∧
+      t.s.refs = [(.client 0, 0)] ∧ t.s.hosted 1 = true ∧ t.s.rc 1 = 1 ∧ t.lost = [(.temp, 1)] :=
   ⟨_, rfl, by decide⟩
 
 end Refcount.Legacy
